@@ -6,6 +6,7 @@ import DispatchVerif.Core.Base32HexP
 import DispatchVerif.Core.Utf8F
 import DispatchVerif.Core.Utf16P
 import DispatchVerif.Core.QueueP
+import DispatchVerif.Core.DataP
 /-! `dvdriver`: line-protocol driver over the Lean models — the same definitions the theorems are about.
     One operation per line in, one canonical result per line out; the C harnesses answer the same lines with
     the real library and the check diffs the two streams. -/
@@ -76,6 +77,49 @@ def transform (fi fo spec : String) : String :=
       | .oob => "OOB"
       | .bytes t2 => toHex t2.flatten
 
+/-! ### dispatch_data programs: a stack machine (`X L3 L5 C S2,4 R1 …`) -/
+def leafBytes (j k : Nat) : List UInt8 := (List.range k).map fun i => UInt8.ofNat ((j * 31 + i * 7 + 1) % 256)
+
+def runData (toks : List String) : String := Id.run do
+  let mut st : List DataP.Data := []
+  let mut nleaf := 1
+  let mut out := ""
+  for tk in toks do
+    if tk.startsWith "L" then
+      let k := (tk.drop 1).toNat!
+      if st.length < 64 then
+        st := (if k = 0 then DataP.empty else DataP.Data.leaf ⟨nleaf, leafBytes nleaf k⟩) :: st
+      nleaf := nleaf + 1
+    else if tk = "C" then
+      match st with
+      | b :: a :: r => st := DataP.concat a b :: r
+      | _ => pure ()
+    else if tk = "D" then
+      match st with
+      | a :: r => if st.length < 64 then st := a :: a :: r
+      | _ => pure ()
+    else if tk.startsWith "S" then
+      match (tk.drop 1).toString.splitOn ",", st with
+      | [o, l], a :: r =>
+        match DataP.subrange a o.toNat! l.toNat! with
+        | some d => st := d :: r
+        | none => out := out ++ "CRASH "
+      | _, _ => pure ()
+    else if tk.startsWith "R" then
+      match st with
+      | a :: _ =>
+        match DataP.copyRegion a (tk.drop 1).toNat! with
+        | some (reg, off) => out := out ++ s!"R{off}:{reg.size} "
+        | none => out := out ++ "CRASH "
+      | _ => pure ()
+  match st with
+  | a :: _ =>
+    let regs := DataP.regions a
+    out := out ++ s!"size={a.size} regions=" ++ String.intercalate "," (regs.map fun r => s!"{r.1}:{r.2.length}")
+      ++ " bytes=" ++ toHex (a.den.map (·.toNat))
+  | [] => out := out ++ "empty-stack"
+  return out
+
 def parseParents (s : String) : List (Option Nat) :=
   (s.splitOn ",").map fun t => if t.startsWith "-" then none else t.toNat?
 
@@ -104,6 +148,7 @@ def handle (line : String) : String :=
     | some w, some a, some b, some c => toString (TimeP.timeout w a b c)
     | _, _, _, _ => "bad-op"
   | ["X2", fi, fo, spec] => transform fi fo spec
+  | "X" :: toks => runData toks
   | ["AQ", idx, q, r] => toString (AttrP.withQos idx.toNat! q.toNat! r.toNat!)
   | ["AI", idx] => toString (AttrP.withInactive idx.toNat!)
   | ["AO", idx, b] => toString (AttrP.withOvercommit idx.toNat! (b = "1"))
